@@ -197,6 +197,11 @@ class Check(core.CheckBase):
         index += 1
         if self.mine(index):
             yield {'kind': 'collections'}
+        for family in ('tls', 'ssh', 'dns', 'opp'):
+            for block in range(2 if self.tier == 'quick' else 24):
+                index += 1
+                if self.mine(index):
+                    yield {'kind': 'generated', 'family': family, 'block': block}
 
     def judge(self, case):
         return getattr(self, 'judge_' + case['kind'])(case)
@@ -215,7 +220,7 @@ class Check(core.CheckBase):
         for name, value in first.items():
             if isinstance(value, tuple):
                 signature = pipeline.exception_signature(value[2])
-                found.append(self.violation('%s-raises|%s|%s|%s' % (name, signature[1], cls_name, signature[0]),
+                found.append(self.violation('%s-raises|%s|%s|%s' % (name, signature[1], signature[0], cls_name),
                                             '%s of a %s raised %r' % (name, cls_name, value[2]), case))
             elif not isinstance(value, str):
                 found.append(self.violation('%s-not-text|%s' % (name, cls_name),
@@ -237,27 +242,54 @@ class Check(core.CheckBase):
                                         'two consecutive renderings of the same %s differ' % cls_name, case))
         return first
 
-    def judge_object(self, case):  # pylint: disable=too-many-branches,too-many-locals
+    def judge_object(self, case):
         obj = self._object(case['cls'], case['number'])
         if obj is None:
             return []
+        return self.judge_one(obj, case, ('object', case['cls'], case['number']))
+
+    def judge_generated(self, case):
+        """Constructed objects (vmon/gen: built through the public constructors with bytes rather than bytearray values, sets
+        with several members, unknown / GREASE code points, None-valued optional fields) and the library objects nested in them."""
+        import importlib  # pylint: disable=import-outside-toplevel
+        rng = random.Random('C14/gen/%s/%s/%s' % (self.seed, case['family'], case['block']))
+        found = {}
+        for number, pair in enumerate(importlib.import_module('vmon.gen.' + case['family']).generate(rng, 40)):
+            for position, obj in enumerate(serializable_objects(pair.obj, limit=6)):
+                self.stats['constructed_objects'] += 1
+                for violation in self.judge_one(obj, case, ('generated', case['family'], case['block'], number, position)):
+                    found.setdefault(violation.key, violation)
+        return list(found.values())
+
+    def judge_one(self, obj, case, identity):  # pylint: disable=too-many-branches,too-many-locals
         found = []
         cls = type(obj)
         cls_name = cls.__name__
         first = self.judge_outputs(obj, case, found)
         nontrivial = bool(getattr(obj, '__dict__', None)) or hasattr(obj, '__len__')
-        self.observe(('object', case['cls'], case['number']), nontrivial,
-                     {'cls': case['cls'], 'json': first.get('json')[:160] if isinstance(first.get('json'), str) else str(first.get('json'))[:80]})
-        self.notes.setdefault('classes', set()).add(case['cls'])
+        self.observe(identity, nontrivial,
+                     {'cls': inventory.class_name(cls), 'json': first.get('json')[:160] if isinstance(first.get('json'), str) else str(first.get('json'))[:80]})
+        self.notes.setdefault('classes', set()).add(inventory.class_name(cls))
         # equal objects: the parse(compose()) copy
         if hasattr(cls, 'parse_exact_size') and hasattr(obj, 'compose'):
             try:
                 copy_obj = cls.parse_exact_size(bytes(obj.compose()))
-                if structural.deep_state(copy_obj, strict_types=True) == structural.deep_state(obj, strict_types=True):
+                strictly_equal = structural.deep_state(copy_obj, strict_types=True) == structural.deep_state(obj, strict_types=True)
+                try:
+                    library_equal = bool(copy_obj == obj) and structural.equal(copy_obj, obj)
+                except Exception:  # pylint: disable=broad-except
+                    library_equal = False
+                if strictly_equal or library_equal:
+                    # equal by the library's own == (bytes == bytearray, same instant) and field by field
                     self.stats['roundtrip_copies_compared'] += 1
+                    if not strictly_equal:
+                        self.stats['roundtrip_copies_equal_not_identical'] += 1
                     if comparable(render(copy_obj)) != comparable(first):
-                        found.append(self.violation('roundtrip-output-differs|%s' % cls_name,
-                                                    'an object and its parse(compose()) copy render differently', case))
+                        locus = structural.diff_locus(structural.deep_state(obj, strict_types=True),
+                                                      structural.deep_state(copy_obj, strict_types=True)) if not strictly_equal else None
+                        found.append(self.violation('roundtrip-output-differs|%s' % (
+                            cls_name if strictly_equal or not locus or not locus[0] else locus[0].split('.')[-1]),
+                                                    'an object and its (equal) parse(compose()) copy render differently', case))
             except Exception:  # pylint: disable=broad-except
                 pass
         # equal objects: set / dict fields rebuilt with another insertion order
